@@ -412,6 +412,14 @@ def cli_cases(rnd, n):
             if i % 10 == 9:
                 peer['enc_c2s'] = [x for x in REAL['enc'] if x not in peer['enc']][:2] or ['aes128-cbc']
                 peer['mac_c2s'] = list(reversed(REAL['mac']))[:2]
+        if i % 7 == 3 and not pol.get('client') and peer['hks']:
+            # a server that also offers a group exchange: the policy prescribes a modulus size, the probe measures the server's
+            G = 'diffie-hellman-group-exchange-sha256'
+            bits = rnd.choice([2048, 3072, 4096])
+            peer['kex'] = peer['kex'] + [G]
+            peer['dhs'] = {G: bits}
+            pol['kex'] = pol['kex'] + [G] if rnd.random() < 0.8 else pol['kex']
+            pol['dhs'] = {G: bits if rnd.random() < 0.5 else rnd.choice([2048, 3072, 4096])}
         pol['sep'] = (', ', ',', ' , ', ',  ')[i % 4]            # a policy file is written by people too: blanks around the commas are optional
         cases.append({'id': i + 1, 'policy': pol, 'peer': peer})
     return cases
@@ -516,6 +524,8 @@ def cli_leg(ck, tier, rnd, n=None):
         hk = {t: rating.hostkey_blob(t, (v['size'], v['catype'], v['casize'])) for t, v in q['hks'].items() if v['size'] > 0}
         srv = peers.ServerCfg(banner=banner_text(q['banner']).encode(), kexinit={'kex': q['kex'], 'key': q['key'], 'enc': q['enc'], 'mac': q['mac'], 'comp': q['comp']},
                               hostkeys=hk)
+        if q.get('dhs'):
+            srv['gex'] = {'per_alg': {a: {'style': 'roundup', 'moduli': [b_]} for a, b_ in q['dhs'].items()}}
         for js in (False, True):
             if q.get('client'):
                 kx = {'kex': q['kex'], 'key': q['key'], 'enc': q['enc'], 'mac': q['mac'], 'comp': q['comp']}
@@ -640,6 +650,8 @@ def multi_target_leg(ck, cases, exp, rnd):
             hk = {t: rating.hostkey_blob(t, (v['size'], v['catype'], v['casize'])) for t, v in q['hks'].items() if v['size'] > 0}
             tg.append(('server', peers.ServerCfg(banner=banner_text(q['banner']).encode(), kexinit={'kex': q['kex'], 'key': q['key'], 'enc': q['enc'], 'mac': q['mac'],
                                                                                              'comp': q['comp']}, hostkeys=hk)))
+            if q.get('dhs'):
+                tg[-1][1]['gex'] = {'per_alg': {a: {'style': 'roundup', 'moduli': [b_]} for a, b_ in q['dhs'].items()}}
         for threads in (1, 2):
             sc, labels = multi.scenario(tg, threads, tuple(range(len(tg))) if threads == 1 else None, json_out=True, extra=['-P', '{tmp}/policy.txt'])
             sc['files']['policy.txt'] = policy_text(pol)
